@@ -1,4 +1,17 @@
-// unit base_gcd (C12): the PRIMITIVE gcd algorithms of dashu-base, base/src/ring/gcd.rs -- work in progress
+// unit base_gcd (C12): the PRIMITIVE gcd algorithms of dashu-base, base/src/ring/gcd.rs, proved UNBOUNDED for the u32 / u64 / u128
+// instances of the three macros (rule E3b: `$U`, `$I`, `$HU` substituted on the FN line):
+//   impl_unchecked_gcd_ops_prim#0  UncheckedGcd::unchecked_gcd (binary gcd),  UncheckedExtendedGcd::unchecked_gcd_ext (extended Euclid)
+//   impl_unchecked_gcd_ops_prim#1  the double-width versions (u128 as two u64: forward to single width / "reduce double by single";
+//                                  u64 as two u32 is the arm chosen on 32-bit targets)
+//   impl_gcd_ops_prim#0            Gcd::gcd, ExtendedGcd::gcd_ext (the public wrappers: zero operands, common power of two)
+// Postconditions (mathematical integers, from the property statement):
+//   gcd:      ret >= 1, ret | a, ret | b, every common divisor divides ret              (gcd(0, 0): documented panic = precondition)
+//   gcd_ext:  the same for ret.0, ret.1 * a + ret.2 * b == ret.0, |ret.1| <= b and |ret.2| <= a (a, b > 0), |ret.2| < a (a > b > 0)
+//   unchecked_gcd (odd operands): ret == br_gcd(a, b) (Euclid's recursion as proof device, lemma_br_gcd_props ties it to divisibility)
+//   unchecked_gcd_ext (a >= b >= 1): br_ext_post: g | a, g | b, s*a + t*b == g, |s| <= b, |t| <= a, halved when a > b
+// All debug assertions are proved (D3), no arithmetic overflow (the i64 / i128 cofactor arithmetic included), termination.
+// Trusted: u128::{trailing_zeros, leading_zeros} (lib/div_dword_bits_64.rs; vstd specifies them up to u64), core::mem::replace.
+// The traits of gcd.rs are mirrored in lib/basering_gcd_traits.rs; their impls below FORWARD to the verified functions (checked).
 #![allow(unused_imports, unused_variables, dead_code, non_snake_case, unused_mut, unused_parens, unused_braces)]
 use vstd::prelude::*;
 use vstd::arithmetic::power2::pow2;
